@@ -6,52 +6,113 @@
 import YkDrv.Util
 import YkModel.CoreState
 import YkModel.CoreOps
+import YkModel.CoreOps2
+import YkModel.CoreRun
 open Lean Yk Yk.Core
 
 namespace YkDrv
 
-def steppedModel (pre post : Core) (op : String) (j : Json) (msgs : List Json) : Option Core :=
+/-- the in-flight replacement a placeholder release of a scheduling cycle announces: the real item of the application
+    (in the state after the cycle) that is linked to placeholder `phKey` -/
+def swapDecision (post : Core) (app phKey : String) : Option (String × String) :=
+  (post.findApp app).bind (fun a => (a.items.find? (fun i => !i.ph && i.release == some phKey)).map (fun i => (i.key, i.node)))
+
+/-- The operations of the stepped model (YkModel/CoreRun.lean) an input line corresponds to; `none`: outside the stepped
+    model. -/
+def stepOps (pre post : Core) (op : String) (j : Json) (msgs : List Json) : Option (List Op) :=
   let sj (k : String) := (jStr (fldD j k (.str ""))).toOption.getD ""
   let msgT (m : Json) (k : String) := (jStr (fldD m k (.str ""))).toOption.getD ""
+  let fired := (jBool (fldD j "out" (.bool false))).toOption.getD false
   match op with
   | "node" =>
     (match sj "action" with
-     | "create" => (jRes (fldD j "res" .null)).toOption.map (fun r => pre.nodeCreate (sj "id") r true)
-     | "create-drain" => (jRes (fldD j "res" .null)).toOption.map (fun r => pre.nodeCreate (sj "id") r false)
-     | "update" => (jRes (fldD j "res" .null)).toOption.map (fun r => pre.nodeUpdate (sj "id") r)
-     | "drain" => some (pre.nodeSchedulable (sj "id") false)
-     | "undrain" => some (pre.nodeSchedulable (sj "id") true)
+     | "create" => (jRes (fldD j "res" .null)).toOption.map (fun r => [.nodeCreate (sj "id") r true])
+     | "create-drain" => (jRes (fldD j "res" .null)).toOption.map (fun r => [.nodeCreate (sj "id") r false])
+     | "update" => (jRes (fldD j "res" .null)).toOption.map (fun r => [.nodeUpdate (sj "id") r])
+     | "drain" => some [.nodeSchedulable (sj "id") false]
+     | "undrain" => some [.nodeSchedulable (sj "id") true]
+     | "decommission" =>
+       let order := (msgs.filter (fun m => msgT m "t" == "release")).map (fun m => (msgT m "app", msgT m "key"))
+       let appsOn := ((pre.findNode (sj "id")).map (fun n => n.allocs.map (·.app))).getD []
+       if appsOn.all (fun a => pre.queuesCover a) then some [.nodeRemove (sj "id") order] else none
      | _ => none)
   | "alloc" =>
     let foreign := (jBool (fldD j "foreign" (.bool false))).toOption.getD false
     let res := (jRes (fldD j "res" .null)).toOption.getD []
-    if foreign then (if pre.foreign.contains (sj "key") then none else some (pre.foreignAdd (sj "key") (sj "node") res))
+    if foreign then (if pre.foreign.contains (sj "key") then none else some [.foreignAdd (sj "key") (sj "node") res])
     else if sj "node" == "" then
       (match pre.findApp (sj "app") with
        | some a => if a.items.any (·.key == sj "key") then none
-                   else some (pre.ask (sj "app") (sj "key") res ((jBool (fldD j "ph" (.bool false))).toOption.getD false) (sj "tg") (sj "reqNode")).1
-       | none => some pre)
+                   else some [.ask (sj "app") (sj "key") res ((jBool (fldD j "ph" (.bool false))).toOption.getD false) (sj "tg") (sj "reqNode")]
+       | none => some [])
     else none
   | "release" =>
-    if sj "app" == "" then some (pre.foreignRemove (sj "key"))
-    else if sj "key" == "" then none
-    else if sj "type" != "STOPPED_BY_RM" && sj "type" != "UNKNOWN" then none
+    let tt := TermType.ofName (sj "type")
+    if sj "app" == "" then some [.foreignRemove (sj "key")]
+    else if !(pre.queuesCover (sj "app")) then none   -- DecAllocatedResource would refuse: outside the stepped model
+    else if sj "key" == "" then some [.releaseApp tt (sj "app")]
     else (match pre.findApp (sj "app") with
-      | none => some pre
+      | none => some []
       | some a => match a.items.find? (·.key == sj "key") with
-        | none => some pre
-        | some i => if i.release.isSome || i.released || i.preempted || (i.bound && !i.inReq) || !pre.reservations == 0 || a.items.any (fun x => x.release == some i.key) then none
-                    else some (pre.releaseKey (sj "app") (sj "key")))
+        | none => some []
+        | some i =>
+          if tt == .replaced then
+            -- a linked replacement whose real half is unknown to the application and to every node cannot be stepped
+            (if i.bound && i.ph && i.release.isSome && (i.release.bind (findReal pre a)).isNone then none
+             else some [.swapConfirm (sj "app") (sj "key")])
+          else if tt == .stopped || tt == .unknown then
+            -- the cases YkModel/CoreOps.releaseKey covers are stepped with it
+            (if i.release.isSome || i.released || i.preempted || !i.inReq || !pre.reservations == 0 || a.items.any (fun x => x.release == some i.key)
+             then some [.release tt (sj "app") (sj "key")] else some [.releaseKey (sj "app") (sj "key")])
+          else some [.release tt (sj "app") (sj "key")])
   | "schedule" =>
-    if msgs.any (fun m => msgT m "t" == "release") || pre.reservations != post.reservations then none
-    else
-      let allocs := msgs.filter (fun m => msgT m "t" == "alloc")
-      allocs.foldl (fun (acc : Option Core) m => acc.bind (fun c =>
-        match c.findApp (msgT m "app") with
-        | some a => match a.items.find? (·.key == msgT m "key") with
-          | some i => if i.release.isSome || !c.reservations == 0 then none else c.schedAlloc (msgT m "app") (msgT m "key") (msgT m "node")
-          | none => none
-        | none => none)) (some pre)
+    -- reservations the cycle made and cancelled are read from the two states (application, ask, node)
+    let resvOf (c : Core) := (c.liveApps.map (fun a => a.reservations.map (fun r => (a.id, r.1, r.2)))).flatten
+    let removed := (resvOf pre).filter (fun r => !((resvOf post).contains r))
+    let added := (resvOf post).filter (fun r => !((resvOf pre).contains r))
+    let start : Option (Core × List Op) := removed.foldl (fun acc r => acc.bind (fun (c, ops) =>
+      let o : Op := .unreserve r.1 r.2.1 r.2.2
+      (o.apply? c).map (fun c' => (c', ops ++ [o])))) (some (pre, []))
+    let mid := msgs.foldl (fun (acc : Option (Core × List Op)) m => acc.bind (fun (c, ops) =>
+        let next (o : Op) : Option (Core × List Op) := (o.apply? c).map (fun c' => (c', ops ++ [o]))
+        if msgT m "t" == "alloc" then
+          (match c.findApp (msgT m "app") with
+           | some a => match a.items.find? (·.key == msgT m "key") with
+             | some i => if i.release.isSome then none else next (.schedAlloc (msgT m "app") (msgT m "key") (msgT m "node"))
+             | none => none
+           | none => none)
+        else if msgT m "t" == "release" then
+          (if msgT m "type" == "PLACEHOLDER_REPLACED" then
+             (swapDecision post (msgT m "app") (msgT m "key")).bind (fun d => next (.swapStart (msgT m "app") d.1 (msgT m "key") d.2))
+           else next (.markReleased (msgT m "app") (msgT m "key") (msgT m "type" == "PREEMPTED_BY_SCHEDULER")))
+        else some (c, ops))) start
+    let fin := added.foldl (fun acc r => acc.bind (fun (c, ops) =>
+      let o : Op := .reserve r.1 r.2.1 r.2.2
+      (o.apply? c).map (fun c' => (c', ops ++ [o])))) mid
+    -- the line is stepped only if the reservation bookkeeping of the model agrees with the implementation's as well
+    fin.bind (fun (c, ops) => if resvAgree c post then some ops else none)
+  | "app-remove" => if pre.queuesCover (sj "id") then some [.appRemove (sj "id")] else none
+  | "ph-timeout" =>
+    if !fired then some [] else
+    let ev := (msgs.find? (fun m => msgT m "t" == "app-state" && msgT m "app" == sj "app")).map (fun m => msgT m "state")
+    some [.phTimeout (sj "app") ev]
+  | "state-timeout" =>
+    if !fired then some [] else
+    (match pre.findApp (sj "app") with
+     | some _ => if pre.queuesCover (sj "app") then some [.stateTimeout (sj "app")] else none
+     | none => some [])   -- an application on the completed / rejected list expires: no ledger is touched
+  | "app-add" =>
+    -- the placement decision (queue, possibly a new dynamic queue) is read from the new state
+    (let newq := post.queues.filter (fun q => (pre.findQueue q.path).isNone)
+     match post.findApp (sj "id"), pre.findApp (sj "id") with
+     | some a, none => some [.appAdd (some a) newq]
+     | _, _ => some [.appAdd none newq])   -- rejected (a dynamic queue created for it stays)
+  | "cleanup" => some [.cleanup]
+  | "drained" => some []
   | _ => none
+
+/-- the stepped model from the implementation's previous state: `run?` of the operations of the line -/
+def steppedModel (pre post : Core) (op : String) (j : Json) (msgs : List Json) : Option Core :=
+  (stepOps pre post op j msgs).bind (run? pre)
 
 end YkDrv
